@@ -173,3 +173,11 @@ Proof.
   exists bc, bm. split; [exact Ec|]. split; [exact Em|].
   rewrite !(half_agrees_on_pass_through cfg rstate_init), H1, H2. split; reflexivity.
 Qed.
+
+(* a receive on a connection with nothing to read (the caller polls an idle connection and the read times out) returns
+   no message and changes neither the receive state — atom cache, fragments held — nor the stream *)
+Lemma idle_poll fuel cfg st : receive fuel cfg st [] = (REof, st, []).
+Proof. destruct fuel; reflexivity. Qed.
+
+Lemma idle_poll_half fuel cfg : receive_half fuel cfg [] = (REof, []).
+Proof. destruct fuel; reflexivity. Qed.
